@@ -18,13 +18,21 @@ const c18MaxCalls = 3
 // the first schedule starts never fires (if it did while no schedule is current, currentFrequency would index list[-1]).
 func c18Scenario(withRestart bool, stopByCancel bool) { c18ScenarioN(withRestart, stopByCancel, 1) }
 
+// invocation ghosts are named by (model thread, invocation count of that thread): the function is normally called by
+// the runner goroutine (thread 1), but a changed runner may call it from helper goroutines
+const c18MaxThreads = 10
+
+var c18Local [24]int
+
 func c18ScenarioN(withRestart bool, stopByCancel bool, restarts int) {
-	calls := 0
+	c18Local = [24]int{}
 	r, err := New(func(freq time.Duration) {
-		zz.Event("fn.begin", calls)
+		tid := zz.ThreadID()
+		id := tid*c18MaxCalls + c18Local[tid]
+		c18Local[tid]++
+		zz.Event("fn.begin", id)
 		zz.Assert("C18.frequency_is_current_schedule", freq == time.Second || freq == 10*time.Second)
-		zz.Event("fn.end", calls)
-		calls++
+		zz.Event("fn.end", id)
 	}, []Schedule{{StartDelay: 0, Frequency: time.Second}, {StartDelay: time.Minute, Frequency: 10 * time.Second}})
 	zz.Assert("C18.constructed", err == nil)
 	ctx, cancel := context.WithCancel(context.Background())
@@ -44,7 +52,7 @@ func c18ScenarioN(withRestart bool, stopByCancel bool, restarts int) {
 		cancel()
 	}
 	zz.Cover("C18.done")
-	for k := 0; k < c18MaxCalls; k++ {
+	for k := c18MaxCalls; k < c18MaxThreads*c18MaxCalls; k++ {
 		zz.CoverIf("C18.fn_invoked", zz.Happened("fn.begin", k))
 		zz.Assert("C18.no_invocation_before_start", !zz.Happened("fn.begin", k) || zz.Before("start.call", "fn.begin", 0, k))
 		if !stopByCancel {
